@@ -354,3 +354,9 @@ pub fn replay_raw(path: &Path) -> Option<Result<(), Failure>> {
     let data = std::fs::read(path).ok()?;
     Some(run_target(target, &data))
 }
+
+/// Debug helper: the structured case the `wire_roundtrip` target builds from raw bytes.
+pub fn arb_case_pub(data: &[u8]) -> Option<WireCase> {
+    let mut u = Unstructured::new(data);
+    arb_case(&mut u).ok()
+}
